@@ -147,6 +147,10 @@ func (x *fnExec) loopPos(h *ssa.BasicBlock) token.Pos {
 	best := token.NoPos
 	for b := range li.body {
 		for _, in := range b.Instrs {
+			switch in.(type) {
+			case *ssa.Phi, *ssa.DebugRef:
+				continue // carry the position of the variable's declaration, not of the loop
+			}
 			if p := in.Pos(); p != token.NoPos && (best == token.NoPos || p < best) {
 				best = p
 			}
@@ -436,6 +440,7 @@ func (x *fnExec) execBlock(st *State, b *ssa.BasicBlock, pred *ssa.BasicBlock) {
 			if st.inLoop[b] {
 				// back edge: preservation
 				x.checkInvariants(st, li, "inv-pres")
+				x.checkSteps(st, li)
 				x.autoFrame(st, li, "inv-pres", false)
 				x.endPath(st)
 				return
@@ -451,6 +456,12 @@ func (x *fnExec) execBlock(st *State, b *ssa.BasicBlock, pred *ssa.BasicBlock) {
 				}
 			}
 			x.autoFrame(st, li, "", true)
+			// remember the loop-head values for step clauses
+			pv := map[string]Term{}
+			for k, t := range x.ctxLoop(st, li).vars {
+				pv[k] = t
+			}
+			st.prevVals[b] = pv
 			start = x.numPhis(b)
 		} else {
 			x.bindPhis(st, b, pred)
@@ -583,6 +594,19 @@ func (x *fnExec) checkInvariants(st *State, li *loopInfo, kind string) {
 		}
 		g := x.evalClause(st, c, inv)
 		x.emit(st, fmt.Sprintf("%s.loop%d.%s", kind, li.ordinal, inv.Label), kind, inv.Label, inv.Props, g, inv.Src)
+	}
+}
+
+// checkSteps: step clauses relate the previous loop-head state (prev(x)) to the current one.
+func (x *fnExec) checkSteps(st *State, li *loopInfo) {
+	c := x.ctxLoop(st, li)
+	c.prev = st.prevVals[li.head]
+	for _, sc := range x.c.Steps {
+		if sc.Loop != li.ordinal {
+			continue
+		}
+		g := x.evalClause(st, c, sc)
+		x.emit(st, fmt.Sprintf("step.loop%d.%s", li.ordinal, sc.Label), "step", sc.Label, sc.Props, g, sc.Src)
 	}
 }
 
